@@ -309,6 +309,28 @@ func (r *Req) httpRequest() (*http.Request, error) {
 	return req, nil
 }
 
+// finalRecorder is a response recorder that treats informational responses the way the net/http server does: a 1xx
+// status (other than 101) is sent on its way, the final status is still to come.
+type finalRecorder struct {
+	*httptest.ResponseRecorder
+	Informational []int
+}
+
+func newRecorder() *finalRecorder { return &finalRecorder{ResponseRecorder: httptest.NewRecorder()} }
+
+func (r *finalRecorder) WriteHeader(code int) {
+	if code >= 100 && code < 200 && code != http.StatusSwitchingProtocols {
+		r.Informational = append(r.Informational, code)
+
+		return
+	}
+
+	r.ResponseRecorder.WriteHeader(code)
+}
+
+// Unwrap lets http.ResponseController reach the recorder.
+func (r *finalRecorder) Unwrap() http.ResponseWriter { return r.ResponseRecorder }
+
 // served does what net/http does for a request it served: the request's context is cancelled when the handler returned
 // (whatever the handler tied to the lifetime of the request is released then).
 func served(req *http.Request, h http.Handler, rec http.ResponseWriter) {
@@ -324,7 +346,7 @@ func (a *Apps) DoDecision(r *Req) *Resp {
 		return &Resp{ParseErr: err}
 	}
 
-	rec := httptest.NewRecorder()
+	rec := newRecorder()
 	served(req, a.Decision, rec)
 
 	accepted := a.Conf.Serve.Decision.Respond.With.Accepted.Code
@@ -343,7 +365,7 @@ func (a *Apps) DoProxy(r *Req) *Resp {
 
 	a.Upstream.Take()
 
-	rec := httptest.NewRecorder()
+	rec := newRecorder()
 	served(req, a.Proxy, rec)
 
 	ups := a.Upstream.Take()
